@@ -373,7 +373,12 @@ def main():
         'checks': checks,
         'not_applicable': na,
         'notes': "fix: commits in /repo (genuine defects repaired): 0a4f2e3 (C07 VLQ), 0f2feee (C14 wallet), c072b88 (C12 "
-                 "miner), aedd880 (C09/C20 relay buffer); see known_findings.json",
+                 "miner), aedd880 (C09/C20 relay buffer). Known findings recorded, not repaired (known_findings.json; the checks "
+                 "print KNOWN-FINDING for exactly these and exit 0): C14 oversize-spend (a spend needing more than ~1,979 inputs "
+                 "exceeds MAX_BLOCK_SIZE), C08 shared-transaction (the same transaction in two stored fork blocks: the second "
+                 "reads back without it). DESIGN.md section 11 describes what is proved, what is only exercised, the "
+                 "assumptions, the false alarms met and the seeded changes. tools/run_all.sh runs every check; "
+                 "tools/run_seeded.py and tools/selftest.py exercise the checks against edits of skepticoin.",
     }
     json.dump(m, open(os.path.join(HOME, 'MANIFEST.json'), 'w'), indent=1)
     try:
